@@ -246,7 +246,47 @@ impl C12 {
         out.nontrivial = true;
         out.classes = vec![format!("mutation:{}", describe.split(' ').next().unwrap_or(""))];
         out.fp = fnv(&[&b]);
-        out.desc = json!({"mutation": describe, "manifest": String::from_utf8_lossy(&b).chars().take(600).collect::<String>()});
+        out.desc = json!({"mutation": describe, "manifest": String::from_utf8_lossy(&b).chars().take(600).collect::<String>(), "manifest_bytes": if b.len() <= 70_000 { json!(b) } else { json!(null) }});
+        let _ = std::env::set_current_dir("/");
+        out
+    }
+
+    /// (f) the real binary: a rejected manifest => exit status 1 and a first line `n2: error: ...`; never a signal or a Rust panic
+    fn bb_cli(&mut self, case: &Case, env: &Env) -> CaseOut {
+        let mut out = self.mutants(case, env);
+        if !out.viols.is_empty() {
+            return out;
+        }
+        // self.mutants ran the in-process loader on the mutated manifest and reported nothing: now the real thing
+        let text = out.desc["manifest_full"].as_str().unwrap_or("").as_bytes().to_vec();
+        let bytes: Vec<u8> = match out.desc["manifest_bytes"].as_array() {
+            Some(a) => a.iter().map(|x| x.as_u64().unwrap_or(0) as u8).collect(),
+            None => text,
+        };
+        prepare_dir(env);
+        std::fs::write("build.ninja", &bytes).unwrap();
+        let accepted = matches!(load_bytes(&bytes), Ran::Done(Ok(())));
+        let o = std::process::Command::new(crate::bb::n2_binary()).args(["-j", "1", "nosuchtarget_zz"]).stdin(std::process::Stdio::null()).output();
+        out.evals += 1;
+        match o {
+            Err(e) => out.viols.push(Viol::new("C12", "cannot-run-n2", format!("cannot run n2: {}", e))),
+            Ok(o) => {
+                use std::os::unix::process::ExitStatusExt;
+                let so = String::from_utf8_lossy(&o.stdout).into_owned();
+                let se = String::from_utf8_lossy(&o.stderr).into_owned();
+                let first = so.lines().find(|l| !l.starts_with("n2: warn:")).unwrap_or("").to_string();
+                if o.status.signal().is_some() || se.contains("panicked") || so.contains("panicked") {
+                    out.viols.push(Viol::new("C12", "binary-died", format!("the n2 binary died on this manifest: status {:?}, stderr {:?}", o.status, se.chars().take(300).collect::<String>())));
+                } else if o.status.code() != Some(1) {
+                    // the requested target does not exist, so even an accepted manifest must end in an error
+                    out.viols.push(Viol::new("C12", "exit-status", format!("expected exit status 1 (accepted by the loader: {}), got {:?}; stdout {:?}", accepted, o.status.code(), so.chars().take(200).collect::<String>())));
+                } else if !first.starts_with("n2: error: ") {
+                    out.viols.push(Viol::new("C12", "no-error-line", format!("exit 1 but the first line is not an `n2: error:` diagnostic: {:?}", first)));
+                } else if accepted && !first.contains("unknown path requested") && !first.contains("nosuchtarget_zz") && !first.contains("missing") {
+                    // accepted manifests may still fail for graph-level reasons; only the shape is required
+                }
+            }
+        }
         let _ = std::env::set_current_dir("/");
         out
     }
@@ -323,6 +363,7 @@ impl Check for C12 {
             Part { name: "tokens", kind: PartKind::Enum { units: 26 * 26 } },
             Part { name: "mutants", kind: PartKind::Random { cases: tier.pick(400_000, 4_000_000), main: 160, ops: 2, oplen: 120, sched: 0 } },
             Part { name: "targets", kind: PartKind::Random { cases: tier.pick(100_000, 1_000_000), main: 10, ops: 0, oplen: 0, sched: 0 } },
+            Part { name: "bb-cli", kind: PartKind::Random { cases: tier.pick(96, 2000), main: 160, ops: 2, oplen: 120, sched: 0 } },
         ]
     }
     fn run_unit(&mut self, _part: &str, u: u64, env: &mut Env) -> CaseOut {
@@ -330,6 +371,7 @@ impl Check for C12 {
     }
     fn run_random(&mut self, part: &str, case: &Case, env: &mut Env) -> CaseOut {
         match part {
+            "bb-cli" => self.bb_cli(case, env),
             "targets" => self.targets(case, env),
             _ => self.mutants(case, env),
         }
